@@ -65,6 +65,11 @@ def c16_step(F):
                     ctx.hit("C08:combiner-residence-checked")
                     if ctx.lt(t, t_last + d):
                         F.soft("C08:combiner-emitted-before-its-processing-delay-elapsed", {})
+                    prev = book.get("t_prev_emit")
+                    if prev is not None and ctx.lt(t, prev + d):
+                        # the single unit of work capacity: packing the next pallet may only start when the previous one has left
+                        F.soft("C08:combiner-worked-on-two-pallets-at-once", {})
+                    book["t_prev_emit"] = t
         elif cls == "Splitter":
             st = F.split.setdefault(n.id, {"pallet": None, "todo": [], "emitted": [], "t": None, "done": True})
             if kind == "get":
@@ -73,7 +78,9 @@ def c16_step(F):
                     if len(st["todo"]) + 1 - dropped != 0:
                         F.soft("C16:splitter-took-a-new-pallet-before-emitting-the-previous-one-completely", {"left": len(st["todo"]), "dropped": dropped})
                         F.soft("C08:splitter-holds-more-than-one-unit-of-work", {"left": len(st["todo"]), "dropped": dropped})
+                prev_done = st.get("t_done")
                 st["pallet"], st["todo"], st["emitted"], st["t"], st["done"] = ev[4].obj, list(ev[6]), [], t, False
+                st["t_prev_done"] = prev_done
                 st["drops_at_start"] = n.stats["num_item_discarded"]
             elif kind == "put":
                 obj = ev[4].obj
@@ -81,6 +88,8 @@ def c16_step(F):
                 d = F.unit_delay.get(n.id)
                 if d is not None and st["t"] is not None and ctx.lt(t, st["t"] + d):
                     F.soft("C08:splitter-emitted-before-its-processing-delay-elapsed", {})
+                if d is not None and st.get("t_prev_done") is not None and not st["emitted"] and obj is not st["pallet"] and ctx.lt(t, st["t_prev_done"] + d):
+                    F.soft("C08:splitter-worked-on-two-pallets-at-once", {})
                 if obj is st["pallet"]:
                     dropped = n.stats["num_item_discarded"] - st.get("drops_at_start", 0)
                     if len(st["todo"]) - dropped > 0:
@@ -88,6 +97,7 @@ def c16_step(F):
                     if len(ev[6]) != 0:
                         F.soft("C16:splitter-emitted-a-pallet-that-is-not-empty", {"n": len(ev[6])})
                     st["done"] = True
+                    st["t_done"] = t
                 elif any(obj is x for x in st["todo"]):
                     st["todo"] = [x for x in st["todo"] if x is not obj]
                     st["emitted"].append(obj)
@@ -143,7 +153,7 @@ def pk_conservation(F):
 
 def pk(props=("C16", "C03"), recipe=(1, 1), n_pallets=2, blocking=True, split_out=1, split_sel="FIRST_AVAILABLE", sym=("ip", "ii", "pd"), comb_cap=2,
        until=None, twin=False, split_blocking=None, item_cap=2, mid_cap=1, out_cap=1, out_delay=0, comb_only=False, split_pd="sym", setup=0,
-       mid_mode="FIFO", split_sd_hi=3, split_in_sel="FIRST_AVAILABLE", item_delay=0, item_mode="FIFO", src_sel=0):
+       mid_mode="FIFO", split_sd_hi=3, split_in_sel="FIRST_AVAILABLE", item_delay=0, item_mode="FIFO", src_sel=0, no_combiner=False, split_quantity=None):
     """pallet source + item source(s) -> Combiner(recipe) -> MID -> Splitter -> OUT_j -> sinks"""
     def fn(ctx):
         from factorysimpy.nodes.source import Source
@@ -168,13 +178,14 @@ def pk(props=("C16", "C03"), recipe=(1, 1), n_pallets=2, blocking=True, split_ou
         sd = ctx.real("sd", 0, split_sd_hi) if split_pd == "sym" and "sd" in sym else 1
         od = ctx.real("od", 0, 3) if out_delay == "sym" else out_delay
         need = [recipe[i + 1] * n_pallets for i in range(n_ing)]
-        comb = F.add_node(Combiner(env, "CMB", target_quantity_of_each_item=list(recipe), processing_delay=F.delay_source("CMB", [pd] * (n_pallets + 1), "callable", after=1),
+        comb = None if no_combiner else F.add_node(Combiner(env, "CMB", target_quantity_of_each_item=list(recipe), processing_delay=F.delay_source("CMB", [pd] * (n_pallets + 1), "callable", after=1),
                                    blocking=blocking, node_setup_time=setup))
         F.unit_delay["CMB"] = pd
         sp = F.add_node(Source(env, "SP", flow_item_type="pallet", inter_arrival_time=F.delay_source("SP", [ip] * n_pallets, "generator"), blocking=True, out_edge_selection=src_sel))
-        ep = _edge(F, "buffer", "BP", comb_cap, 0)
-        ep.connect(sp, comb)
-        for i in range(n_ing):
+        if not no_combiner:
+            ep = _edge(F, "buffer", "BP", comb_cap, 0)
+            ep.connect(sp, comb)
+        for i in range(0 if no_combiner else n_ing):
             si = F.add_node(Source(env, f"SI{i}", inter_arrival_time=F.delay_source(f"SI{i}", [ii[i]] * max(need[i], 1), "generator"), blocking=True, out_edge_selection=src_sel))
             idl = ctx.real("idl", 0, 2) if (item_delay == "sym-last" and i == n_ing - 1) else (0 if item_delay == "sym-last" else item_delay)
             ei = _edge(F, "buffer", f"BI{i}", item_cap, idl, mode=item_mode)
@@ -186,13 +197,13 @@ def pk(props=("C16", "C03"), recipe=(1, 1), n_pallets=2, blocking=True, split_ou
             em = _edge(F, "buffer", "MID", mid_cap, od)
             em.connect(comb, k)
         else:
-            spl = F.add_node(Splitter(env, "SPL", processing_delay=F.delay_source("SPL", [sd] * (n_pallets + 1), "callable", after=1),
+            spl = F.add_node(Splitter(env, "SPL", split_quantity=split_quantity, processing_delay=F.delay_source("SPL", [sd] * (n_pallets + 1), "callable", after=1),
                                       blocking=blocking if split_blocking is None else split_blocking,
                                       in_edge_selection=split_in_sel,
                                       out_edge_selection=_policy(F, ctx, "SPL", "out", split_sel, split_out, 0), node_setup_time=setup))
             F.unit_delay["SPL"] = sd
             em = _edge(F, "buffer", "MID", mid_cap, 0, mode=mid_mode)
-            em.connect(comb, spl)
+            em.connect(sp if no_combiner else comb, spl)
             for j in range(split_out):
                 k = F.add_node(Sink(env, f"K{j}"))
                 sinks.append(k)
@@ -203,6 +214,10 @@ def pk(props=("C16", "C03"), recipe=(1, 1), n_pallets=2, blocking=True, split_ou
             F.step_hooks.append(c16_step)
         if "C03" in F.props:
             F.instant_hooks.append(pk_conservation)
+        if "C15" in F.props:
+            from .m2s import c15_step
+            F.discards = lambda n: n.stats.get("num_item_discarded", 0)
+            F.step_hooks.append(c15_step)
         if "C09" in F.props:
             from .m2s import c09_step, c09_instant
             F.step_hooks.append(c09_step)
@@ -211,7 +226,13 @@ def pk(props=("C16", "C03"), recipe=(1, 1), n_pallets=2, blocking=True, split_ou
         if until == "sym":
             Tend = ctx.real("T", 0.25, 10)
         F.run(until=Tend)
+        if "C15" in F.props:
+            from .m2s import c15_final
+            c15_final(F)
         if until is None:
+            if "C10" in F.props:
+                from .m2s import c10_quiescence
+                c10_quiescence(F)
             if "C16" in F.props:
                 c16_final(F)
             if "C03" in F.props:
